@@ -422,6 +422,12 @@ func runC15(c *core.Case) {
 			}
 		} else {
 			bad, kind, _ := malformID(r, vsp())
+			if r.P(0.25) { // documented: altitude outside the +-2^24 m window is an error
+				z := clampI(hz, 1, 35)
+				a := genID(r, z, z, z, z)
+				a.F = []int64{pow2(z - 1), -pow2(z-1) - 1, pow2(z) - 1, -pow2(z)}[r.Intn(4)]
+				bad, kind = a.Spatial(), "altitude-window"
+			}
 			other := vsp()
 			if r.P(0.3) {
 				other = bad
